@@ -377,6 +377,13 @@ def check(ctx):
         for n in util.own_nodes(ge, ast.Attribute):
             if n.attr == attr and isinstance(n.value, ast.Name) and n.value.id == "self":
                 (writes if isinstance(n.ctx, ast.Store) else reads).append(n)
+        # `self.<attr> = None` drops the object of an earlier run (F26): no state can leak through it, and it does not count as
+        # the construction a later use needs either
+        def _drops(w):
+            st = util.enclosing_stmt(w)
+            return isinstance(st, ast.Assign) and util.is_const(st.value, None)
+
+        writes = [w for w in writes if not _drops(w)]
         ctx.sites(f"C12.R2.{attr}", len(writes), len(classes), f"assignments self.{attr} = <constructor> in get_estimates")
         wnodes = set()
         fresh_ok = True
